@@ -2,11 +2,12 @@
 """archive_seed.py <Cxx> <1|2> <breaks> <detected_by>   — copy a sub-agent's seeded change from /tmp/seed/out-<Cxx> into /verif/seeded/<Cxx>-<n>/"""
 import json, os, shutil, sys
 pid, n, breaks, detected = sys.argv[1:5]
+which = sys.argv[5] if len(sys.argv) > 5 else n      # which of the agent's two patches (1|2) when archived under another number
 src = "/tmp/seed/out-%s" % pid
 dst = "/verif/seeded/%s-%s" % (pid, n)
 os.makedirs(dst, exist_ok=True)
-shutil.copy(os.path.join(src, "patch.diff" if n == "1" else "patch2.diff"), os.path.join(dst, "patch.diff"))
-d = os.path.join(src, "demo" if n == "1" else "demo2")
+shutil.copy(os.path.join(src, "patch.diff" if which == "1" else "patch2.diff"), os.path.join(dst, "patch.diff"))
+d = os.path.join(src, "demo" if which == "1" else "demo2")
 if os.path.isdir(os.path.join(dst, "demo")):
     shutil.rmtree(os.path.join(dst, "demo"))
 os.makedirs(os.path.join(dst, "demo"))
@@ -16,7 +17,7 @@ for f in os.listdir(d):
 if os.path.exists(os.path.join(src, "NOTES.md")):
     shutil.copy(os.path.join(src, "NOTES.md"), os.path.join(dst, "AUTHOR_NOTES.md"))
 conf = None
-cf = "/tmp/seed/confirm-%s-%s.txt" % (pid, n)
+cf = "/tmp/seed/confirm-%s-%s.txt" % (pid, which)
 if os.path.exists(cf):
     try:
         conf = json.loads(open(cf).readline())
